@@ -32,6 +32,11 @@ CLAIMS = {
   "note": "Trusted: CPython text-mode newline translation and str.strip/split semantics. Two genuine L4 defects were repaired (fix: commits 6c0bda4, 4bd5621).",
   "technique": "AST fact extraction on the tokenizer + effect (commutativity) classification of every loop over the input map + ordering check of cooperating writer sites",
  },
+ "C19": {
+  "text": "Exhaustive static comparison of three tables read from the source: (1) every input declaration (name, kind, DefaultValue, Min/Max/AllowableRange, CurrentUnits, Required - the very objects ReadParameter enforces, constant-folded from the AST) of every class Model/HIP-RA-X can instantiate, (2) the committed geophires-request.json / hip-ra-x-request.json, (3) the client's _RESULT_FIELDS_BY_CATEGORY vs geophires-result.json. Decides none-missing/none-extra (Y1, Y3), equality of type/default/bounds/units/required for identically declared parameters with tolerance 1e-5 for the generator's float rounding (Y2), and result-field equality (Y4). 'committed = generated' needs the generator to run and is a baseline test, not claimed here.",
+  "note": "Trusted: registry constant folder (1 default not foldable: Fixed Internal Rate, reported). 8 genuine discrepancies recorded as known findings (6 instantiable classes not enumerated by the generator => 30 accepted parameters unpublished; 2 enum-valued defaults published as '').",
+  "technique": "table extraction from AST + exhaustive three-way table comparison (declarations / schema JSON / client field table)",
+ },
 }
 
 NOT_APPLICABLE = {}
